@@ -231,6 +231,8 @@ std::string CostProgram::describe() const
         o << "tg(k.p) ";
     if (o_e)
         o << "exp(-|p-o(tg)|^2) ";
+    if (dl_w)
+        o << "deadline(tg)^3 ";
     if (seg_w)
         o << "*segweight";
     o << "]";
@@ -429,6 +431,12 @@ R valueT(const CostProgram &c, R tg, int seg, const R *p, const R *v, const R *a
         }
         val += (R)c.o_e * std::exp(-d2 / (R)c.o_sig2);
     }
+    if (c.dl_w != 0)
+    {
+        R e = tg - (R)c.dl_t;
+        if (e > 0)
+            val += (R)c.dl_w * e * e * e * ((R)1 + (R)0.1 * dot(v, v));
+    }
     R sw = (R)1 + (R)c.seg_w * (R)(seg % 5);
     return val * sw;
 }
@@ -533,6 +541,19 @@ double CostProgram::runCost(double t, double tg, int seg, const double *p, const
             eo += e[q] * o1[q];
         }
         Gt += ex * (2 * eo / o_sig2);
+    }
+    if (dl_w != 0)
+    {
+        double e = tg - dl_t;
+        if (e > 0)
+        {
+            double vv = 0;
+            for (int q = 0; q < d; ++q)
+                vv += v[q] * v[q];
+            for (int q = 0; q < d; ++q)
+                G[1][q] += dl_w * e * e * e * 0.2 * v[q];
+            Gt += dl_w * 3 * e * e * (1 + 0.1 * vv);
+        }
     }
     double *out[5] = {gp, gv, ga, gj, gs};
     for (int k = 0; k < 5; ++k)
